@@ -18,6 +18,8 @@ mod parse_style;
 mod parse_styles;
 mod style;
 mod utils;
+#[cfg(dandavison_delta_verif)]
+mod verif_hooks;
 mod wrapping;
 
 mod subcommands;
@@ -58,6 +60,10 @@ pub mod errors {
 
 #[cfg(not(tarpaulin_include))]
 fn main() -> std::io::Result<()> {
+    #[cfg(dandavison_delta_verif)]
+    if verif_hooks::enabled() {
+        process::exit(verif_hooks::run()?);
+    }
     // Do this first because both parsing all the input in `run_app()` and
     // listing all processes takes about 50ms on Linux.
     // It also improves the chance that the calling process is still around when
